@@ -10,8 +10,8 @@ inline double ratioCap(int order) { return order == 3 ? 1000.0 : (order == 5 ? 2
 
 static const char *kDurPatternNames[] = {"uniform", "loguniform", "one_short", "one_long", "alternating", "ramp_up",
                                          "ramp_down", "short_first", "short_last", "long_first", "long_last", "equal",
-                                         "two_level_random"};
-constexpr int kNumDurPatterns = 13;
+                                         "two_level_random", "nearly_equal", "mean_equals_first"};
+constexpr int kNumDurPatterns = 15;
 
 // durations in [b, b*R]
 inline std::vector<double> genDurations(Rng &r, int N, double b, double R, int pattern)
@@ -85,10 +85,34 @@ inline std::vector<double> genDurations(Rng &r, int N, double b, double R, int p
             t = v;
         break;
     }
-    default:
+    case 12:
         for (auto &t : T)
             t = r.coin() ? b : hi;
         break;
+    case 13: // nearly equal: neighbours differ by a relative 1e-6 .. 1e-10 (late iterations of an optimiser, rounding of a uniform grid)
+    {
+        double v = r.uni(b, hi);
+        double eps = std::pow(10.0, -(double)r.range(6, 10));
+        for (auto &t : T)
+            t = v * (1.0 + eps * r.uni(-1, 1));
+        break;
+    }
+    default: // structured: symmetric dyadic deviations around the first duration, so that the mean equals the first entry exactly
+    {
+        double m = std::ldexp(std::round(std::ldexp(r.uni(b, hi), 4)), -4);
+        if (!(m >= b))
+            m = b;
+        for (auto &t : T)
+            t = m;
+        for (int i = 1; i + 1 < N; i += 2)
+        {
+            double span = std::min(m - b, hi - m);
+            double d = std::ldexp(std::floor(std::ldexp(r.uni(0, std::max(0.0, span)), 6)), -6);
+            T[i] = m - d;
+            T[i + 1] = m + d;
+        }
+        break;
+    }
     }
     for (auto &t : T)
         t = clampv(t);
